@@ -29,7 +29,7 @@ RULE = ("case = generated (declaration, configuration) placed in 2-4 surrounding
 ASSUMPTIONS = ["not generated (outside 'named like prelude or core items'): user items named like primitive types, and "
                "user traits with blanket impls that inject same-named methods on foreign types; edition fixed at 2021"]
 
-PROFILE = S.profile(renames=0.3, dups=0.0, attrs=0.1, sizes=[("small", 84), ("medium", 10), ("large", 2), ("full8", 4)], vis=["pub"])
+PROFILE = S.profile(renames=0.3, dups=0.0, attrs=0.1, sizes=[("small", 84), ("medium", 10), ("large", 2), ("full8", 4)], vis=["pub"], idents=0.0)
 
 H_TYPES = ["Option", "Result", "Some", "None", "Ok", "Err", "String", "Vec", "Box", "Formatter", "RangeInclusive",
            "MaybeUninit", "Map", "Copied", "IntoIter", "Iter", "Ordering", "Range", "Infallible"]
